@@ -58,7 +58,9 @@ pub fn make_doc(id: &str, ver: u64, r: &mut StdRng) -> Value {
 
 /// Two committed segments with tombstones in the first one, then 2-3 queued operations that stay
 /// in the write-ahead log (the handle is dropped without commit).
-pub fn build_index(root: &Path, r: &mut StdRng) -> Result<Value> {
+/// `with_marker`: the log additionally starts with an already committed add and a commit marker
+/// (the state a crash between writing the marker and truncating the log leaves behind).
+pub fn build_index(root: &Path, r: &mut StdRng, with_marker: bool) -> Result<Value> {
   let schema = schema_from_json(schema_json());
   let idx = Index::create(root, schema, opts(root, StorageType::Filesystem))?;
   let mut ver = 0u64;
@@ -94,6 +96,15 @@ pub fn build_index(root: &Path, r: &mut StdRng) -> Result<Value> {
       plan.push(json!({"seg": 2, "op": "add", "id": id, "ver": ver}));
     }
     w.commit()?;
+  }
+  if with_marker {
+    let storage: std::sync::Arc<dyn searchlite_core::storage::Storage> =
+      std::sync::Arc::new(FsStorage::new(root.to_path_buf()));
+    let mut wal = Wal::open(storage, &root.join("wal.log"))?;
+    wal.append_add_doc(&doc_from_json(make_doc(ids[n1], ver, r)))?;
+    wal.append_commit()?;
+    wal.sync()?;
+    plan.push(json!({"seg": 0, "op": "marker", "id": ids[n1], "ver": ver}));
   }
   {
     let mut w = idx.writer()?;
@@ -549,7 +560,7 @@ fn run_scenario(scn: usize, seed: u64, dense: bool, npos: usize, tr: &mut Tracer
   let mut r = rng(seed, 17_000_000 + scn as u64);
   let scratch = Scratch::new("corrupt");
   let root = scratch.join("idx");
-  let plan = build_index(&root, &mut r)?;
+  let plan = build_index(&root, &mut r, scn % 2 == 1)?;
   let pristine_files = read_tree(&root)?;
   let pristine = probe(&root, true);
   // the probe may trim the log / create files: put the pristine bytes back after every probe
